@@ -3,6 +3,7 @@
     pmdriver model <script-file>      run the model on a script file, print the transcript (PROTOCOL.md §2)
 -/
 import PosterModel.Script
+import PosterModel.TxMock
 import PosterModel.Spec.Client
 import PosterModel.Spec.Server
 import PosterModel.Lemmas.WorldQuietIds
@@ -17,10 +18,24 @@ def runScript (name : String) (lines : List String) : List String := Id.run do
     | l :: rest => if l.startsWith "CFG" then (parseCfg ((l.splitOn " ").drop 1), rest) else (some {}, lines)
     | [] => (some {}, [])
   let mut out : Array String := #[s!"BEGIN {name}"]
+  -- `wtrace=1`: the statistics of every connection's transport, through the `write_all` model (TxStream / TxMock)
+  let cfgToks := match lines with
+    | l :: _ => if l.startsWith "CFG" then (l.splitOn " ").drop 1 else []
+    | [] => []
+  let wtrace := cfgToks.contains "wtrace=1"
+  let mock : TxStream.MockW :=
+    { one := cfgToks.contains "wr=one" || cfgToks.contains "wr=pendone",
+      pend := cfgToks.contains "wr=pend" || cfgToks.contains "wr=pendone" }
+  let wcalls := fun (pkts : Array Bytes) (raw : Bool) =>
+    let st := TxStream.mockStats mock pkts.toList
+    if raw || !st.ok || cfgToks.any (fun t => t.startsWith "werr=" || t.startsWith "wzero=") then "WCALLS ?" else s!"WCALLS calls={st.calls} pend={st.pend} bytes={st.bytes}"
   match cfg? with
   | none => out := out.push "BADSCRIPT"
   | some cfg =>
     let mut w : World := { cfg := cfg }
+    let mut conn := false
+    let mut pkts : Array Bytes := #[]
+    let mut raw := false
     for l in evLines do
       if w.bad then break
       out := out.push ("> " ++ l)
@@ -30,16 +45,31 @@ def runScript (name : String) (lines : List String) : List String := Id.run do
         w := { w with bad := true }
       | some e =>
         w := w.step e
+        let isSetup := (match e with | .setup => true | _ => false) && !w.bad
         for o in w.out do
+          match o with
+          | .wire bs => pkts := pkts.push bs
+          | .wraw _ => raw := true
+          | _ => pure ()
           match renderObs o with
           | some s => out := out.push s
           | none => pure ()
+        if isSetup then
+          if wtrace && conn then out := out.push (wcalls pkts raw)
+          conn := true
+          pkts := #[]
+          raw := false
         w := { w with out := [] }
     w := w.finishScript
     for o in w.out do
+      match o with
+      | .wire bs => pkts := pkts.push bs
+      | .wraw _ => raw := true
+      | _ => pure ()
       match renderObs o with
       | some s => out := out.push s
       | none => pure ()
+    if wtrace && conn then out := out.push (wcalls pkts raw)
   out := out.push "END"
   return out.toList
 
